@@ -75,9 +75,9 @@ def alternations(ev):
 
 
 def run(ctx):
-    n = ctx.budget(10, 70)
+    n = ctx.budget(6, 60)
     scs = gen_scenarios(ctx.rng, n, ctx.corpus())
-    with cf.ThreadPoolExecutor(max_workers=5) as ex:
+    with cf.ThreadPoolExecutor(max_workers=6) as ex:
         results = list(ex.map(procs.run_scenario, scs))
     cases, seen = [], set()
     dist = {"processes": {}, "with_existing_result": 0, "gated": 0, "slow_body": 0, "shell": 0, "hangs": 0,
